@@ -12,7 +12,8 @@
     "n.Name", "n.UID", "n.GID", "n.MTime", "n.Xattrs", "n.Target"  the node's field, unchanged
     "int64(n.Mode)"      `rawMode`: the 32 `os.FileMode` bits, zero-extended (NOT `tarMode(n.Mode)`)
     "int64(n.Size)", "int64(n.Major)", "int64(n.Minor)"            the same 64-bit pattern
-    "fs.format"          the writer's format: `gnutar.FormatGNU` (`NewTarWriter`); absent in `CreateDevice`
+    "fs.formatFor(n.Xattrs)"  `TarFS.formatFor .gnu`: `FormatPAX` when the node has an extended attribute, otherwise
+                         the writer's format `gnutar.FormatGNU` (`NewTarWriter`); no `Format` in `CreateDevice`
     "typ"                `TypeBlock`, or `TypeChar` when `n.Mode&os.ModeCharDevice != 0`
     "info.Name()", "info.Mode()", "info.ModTime()", "uint64(info.Size())"   `infoName`, `tarInfoMode`, the
                          header's `ModTime` and `Size` (`info := h.FileInfo()`)
@@ -38,11 +39,11 @@ theorem gen_tarfs_writer :
     (Gen.site_tarfs_CreateDir_found && Gen.site_tarfs_CreateFile_found && Gen.site_tarfs_CreateSymlink_found &&
       Gen.site_tarfs_CreateDevice_found && Gen.site_tarfs_NewTarWriter_found) = true ∧
     samePairs Gen.tarfsCreateDirHdr
-      (("Typeflag", "gnutar.TypeDir") :: ("Format", "fs.format") :: hdrCommon) = true ∧
+      (("Typeflag", "gnutar.TypeDir") :: ("Format", "fs.formatFor(n.Xattrs)") :: hdrCommon) = true ∧
     samePairs Gen.tarfsCreateFileHdr
-      (("Typeflag", "gnutar.TypeReg") :: ("Size", "int64(n.Size)") :: ("Format", "fs.format") :: hdrCommon) = true ∧
+      (("Typeflag", "gnutar.TypeReg") :: ("Size", "int64(n.Size)") :: ("Format", "fs.formatFor(n.Xattrs)") :: hdrCommon) = true ∧
     samePairs Gen.tarfsCreateSymlinkHdr
-      (("Typeflag", "gnutar.TypeSymlink") :: ("Linkname", "n.Target") :: ("Format", "fs.format") :: hdrCommon) = true ∧
+      (("Typeflag", "gnutar.TypeSymlink") :: ("Linkname", "n.Target") :: ("Format", "fs.formatFor(n.Xattrs)") :: hdrCommon) = true ∧
     samePairs Gen.tarfsCreateDeviceHdr
       (("Typeflag", "typ") :: ("Devmajor", "int64(n.Major)") :: ("Devminor", "int64(n.Minor)") :: hdrCommon) = true ∧
     Gen.tarfsCreateDirCalls = ["fs.w.WriteHeader(hdr)"] ∧
@@ -52,7 +53,9 @@ theorem gen_tarfs_writer :
     (Gen.tarfsCreateDirHdrTouched || Gen.tarfsCreateFileHdrTouched || Gen.tarfsCreateSymlinkHdrTouched ||
       Gen.tarfsCreateDeviceHdrTouched) = false ∧
     Gen.tarfsDeviceTypRule = ["typ=gnutar.TypeBlock", "if n.Mode&os.ModeCharDevice!=0: typ=gnutar.TypeChar"] ∧
-    Gen.tarfsNewTarWriter = [("w", "gnutar.NewWriter(w)"), ("format", "gnutar.FormatGNU")] := by
+    Gen.tarfsNewTarWriter = [("w", "gnutar.NewWriter(w)"), ("format", "gnutar.FormatGNU")] ∧
+    Gen.site_tarfs_formatFor_found = true ∧
+    Gen.tarfsFormatForBody = ["if len(xattrs)>0: return gnutar.FormatPAX", "return fs.format"] := by
   decide
 
 end Desync.C05
